@@ -379,6 +379,14 @@ impl ClusterProbe {
             .verif_add_tablet_from_payload(keyspace, table, payload)
     }
 
+    /// Several tablets handed over in one batch (one `update_tablets` call).
+    pub fn add_tablets_batch(
+        &mut self,
+        items: &[(String, String, HashMap<String, Bytes>)],
+    ) -> Vec<bool> {
+        self.state.verif_add_tablets_batch(items)
+    }
+
     pub fn tablet_ranges(&self, keyspace: &str, table: &str) -> Option<Vec<TabletDump>> {
         let spec = TableSpec::borrowed(keyspace, table);
         self.state.verif_tablet_ranges(&spec)
